@@ -134,9 +134,9 @@ pub(crate) mod b {
                                 preorder(&t.enclosing, out);
                             }
                         }
-                        let mut order = vec![];
-                        preorder(&trees, &mut order);
-                        for (t, node) in order.iter().zip(rendered.iter()) {
+                        let mut pre = vec![];
+                        preorder(&trees, &mut pre);
+                        for (t, node) in pre.iter().zip(rendered.iter()) {
                             let mut class_tokens: Vec<String> = vec![];
                             if let Some(vals) = node.attribute_value(&"class") {
                                 for v in vals {
